@@ -12,7 +12,8 @@ Record stepobs := mkStepObs {
   (* through the SAME long-lived FeatureDB object, after the step: *)
   so_lookups : list (str * result row);   (* db[id] for a fixed pool of present and absent ids *)
   so_counts : list (option str * Z);      (* count_features_of_type(t); None = all *)
-  so_iter_ids : list str }.               (* ids yielded by all_features() *)
+  so_iter_ids : list str;                 (* ids yielded by all_features() *)
+  so_relatives : list (str * (list str * list str)) }.   (* ids of children(id) and parents(id), all levels *)
 
 Inductive case :=
 | CHist (kind : dbkind)              (* GFF3- or GTF-dialect database *)
@@ -51,9 +52,17 @@ Definition count_matches (rows : list row) (x : option str * Z) : bool :=
                      | Some t => filter (fun r => str_eqb (r_ftype r) t) rows
                      end)) =? snd x).
 
-(* the object's own view (look-ups, counts, iteration) agrees with the file's content *)
+(* children()/parents(): the stored features related to the id at any level, each once *)
+Definition relatives_match (d : ist) (x : str * (list str * list str)) : bool :=
+  let present := fun i => has_id i (s_rows d) in
+  let ch := dedup_strs (map rel_child (filter (fun r => str_eqb (rel_parent r) (fst x) && present (rel_child r)) (s_rels d))) in
+  let pa := dedup_strs (map rel_parent (filter (fun r => str_eqb (rel_child r) (fst x) && present (rel_parent r)) (s_rels d))) in
+  lstr_eqb (sort_strs ch) (sort_strs (fst (snd x))) && lstr_eqb (sort_strs pa) (sort_strs (snd (snd x))).
+
+(* the object's own view (look-ups, counts, iteration, relatives) agrees with the file's content *)
 Definition api_matches (kind : dbkind) (d : ist) (o : stepobs) : bool :=
   forallb (lookup_matches (s_rows d)) (so_lookups o) && forallb (count_matches (s_rows d)) (so_counts o)
+  && forallb (relatives_match d) (so_relatives o)
   && match kind with
      | KGff => lstr_eqb (map r_id (s_rows d)) (so_iter_ids o)
      | KGtf => lstr_eqb (sort_strs (map r_id (s_rows d))) (sort_strs (so_iter_ids o))
